@@ -33,6 +33,10 @@ REQUIRED_THEOREMS = [
     "boundaryVertices_eq_spec", "boundaryEdges_eq_spec",
     "boundary_vertex_maps_inverse", "boundary_face_maps_inverse", "boundary_edge_maps_inverse", "boundary_faces_exactly_border",
     "edge_to_cell_face_sets_eq_spec", "edge_ring_sorted_partial", "edge_to_cell_rotational_order",
+    # round 2
+    "boundary_closed", "boundary_closed_exactly_two", "faceToCells_each_once",
+    "other_face_side_eq_spec", "common_face_eq_spec", "in_cell_index_eq_spec", "in_cell_face_index_eq_spec",
+    "cell_to_edge_eq_spec", "edge_to_face_order_open", "edge_to_face_order_ring",
 ]
 
 TRUSTED = [
@@ -54,7 +58,7 @@ ASSUMPTIONS = ["agreement model/implementation is established on the meshes and 
 RULE = ("conforming tet meshes (single, pair, fans around an edge/vertex, Kuhn grids with removed cells, several components, pieces glued "
         "at one vertex, pieces glued along one edge (non-manifold edge); positive/negative/mixed orientation; random numbering and cell "
         "vertex order); all accessors on all elements in shuffled order with clear() interleaved and a re-ask after clear(); both "
-        "sort_neighborhoods settings; both boundary extractors; lazy histories incl. every accessor as first query on a fresh instance "
+        "sort_neighborhoods settings; both boundary extractors; lazy histories over the FULL public API of the volume connectivity (own + inherited surface/polyline accessors) incl. every accessor as first query on a fresh instance "
         "(thorough: every ordered pair of accessors). non-trivial = distinct mesh with >=2 cells and >=1 interior face (vol) or distinct "
         "history with >=2 distinct accessors (lazy)")
 
@@ -82,6 +86,24 @@ LAZY_ARGS = {  # accessor -> argument builder from (nV, nE, nF, nC, rng)
     "edge_id": lambda d, r: [r.randrange(d["nV"]), r.randrange(d["nV"])],
     "face_id": lambda d, r: [r.randrange(d["nV"]), r.randrange(d["nV"]), r.randrange(d["nV"])],
     "face_to_edges": lambda d, r: [r.randrange(d["nF"])],
+    # inherited from SurfaceMesh._Connectivity / PolyLine._Connectivity (corners: 3 per stored triangle)
+    "vertex_to_faces": lambda d, r: [r.randrange(d["nV"])], "vertex_to_corners": lambda d, r: [r.randrange(d["nV"])],
+    "vertex_to_corner_in_face": lambda d, r: [r.randrange(d["nV"]), r.randrange(d["nF"])],
+    "previous_corner": lambda d, r: [r.randrange(3 * d["nF"])], "next_corner": lambda d, r: [r.randrange(3 * d["nF"])],
+    "opposite_corner": lambda d, r: [r.randrange(3 * d["nF"])], "corner_to_half_edge": lambda d, r: [r.randrange(3 * d["nF"])],
+    "corner_to_face": lambda d, r: [r.randrange(3 * d["nF"])],
+    "half_edge_to_corner": lambda d, r: [r.randrange(d["nV"]), r.randrange(d["nV"])],
+    "direct_face": lambda d, r: [r.randrange(d["nV"]), r.randrange(d["nV"])],
+    "edge_to_faces": lambda d, r: [r.randrange(d["nV"]), r.randrange(d["nV"])],
+    "opposite_face": lambda d, r: [r.randrange(d["nV"]), r.randrange(d["nV"]), r.randrange(d["nF"])],
+    "common_edge": lambda d, r: [r.randrange(d["nF"]), r.randrange(d["nF"])],
+    "face_to_vertices": lambda d, r: [r.randrange(d["nF"])],
+    "in_face_index": lambda d, r: [r.randrange(d["nF"]), r.randrange(d["nV"])],
+    "face_to_first_corner": lambda d, r: [r.randrange(d["nF"])], "face_to_corners": lambda d, r: [r.randrange(d["nF"])],
+    "face_to_faces": lambda d, r: [r.randrange(d["nF"])],
+    "other_edge_end": lambda d, r: [r.randrange(d["nE"]), r.randrange(d["nV"])],
+    "vertex_to_vertices": lambda d, r: [r.randrange(d["nV"])], "vertex_to_edges": lambda d, r: [r.randrange(d["nV"])],
+    "edge_to_vertices": lambda d, r: [r.randrange(d["nE"])],
 }
 
 
@@ -786,15 +808,17 @@ MANIFEST = {
                    "_BoundaryConnectivity and extract_boundary_of_volume: face_to_cells / cell_to_face (i-th face opposite the i-th vertex) / "
                    "cell_to_cell / vertex_to_cell equal direct inspection of the cell list for every conforming tetrahedral mesh; border faces = "
                    "faces in one cell, border vertices/edges = those of border faces, partitions disjoint and exhaustive; boundary surface = "
-                   "exactly the border faces, vertex/face/edge index maps mutually inverse; edge_to_cell/edge_to_face equal direct inspection as sets; the orientation rule makes every boundary face point "
+                   "exactly the border faces, closed (every edge in an even number of boundary faces: the dd=0 mod 2 counting argument), vertex/face/edge index maps mutually inverse; other_face_side / common_face / in_cell_index / in_cell_face_index / cell_to_edge equal direct inspection; edge_to_cell/edge_to_face equal direct inspection as sets; the orientation rule makes every boundary face point "
                    "outwards for either cell orientation (ring identity), while the completed face table points inward for positive cells; "
                    "no history of lazy queries can read a missing or None cache (guard-table state machine, finite reachable set checked by "
                    "decide over the table translated from the source, induction over histories). Translated fragments: tetra face table, "
                    "sub-face slice, orientation rule of both extractors, guard table with the __init__/clear attribute sets. The model is tied "
                    "to the code by a correspondence over all accessors × all elements in shuffled histories and a brute-force oracle."),
     "level_note": ("Trusted: Lean kernel + propext/Classical.choice/Quot.sound; the hand-written model (checked against the code on the meshes "
-                   "of each run only); the ast translator; prepared face/edge containers as checked hypotheses (C02). Proved only in part: "
-                   "rotational order around an edge (edge_to_cell/face proved as sets + walk-chain invariant; the order itself is "
-                   "oracle/correspondence-checked); closedness of the boundary surface is oracle-checked, not proved."),
+                   "of each run only); the ast translator; prepared face/edge containers as checked hypotheses (C02). Proved under explicit walk hypotheses: "
+                   "rotational order of edge_to_cell / edge_to_face (the edge-umbrella hypothesis - the two walks reach every cell / face "
+                   "around the edge - is an assumption of the theorems, checked by the oracle on every generated mesh). 'Exactly two faces "
+                   "per boundary edge' is derived from the proved evenness under the decidable hypothesis that no boundary edge lies in "
+                   "more than two boundary triangles."),
     "technique": "Lean 4 refinement-to-spec proofs over an executable model + decide over translated tables + ring identities; differential correspondence",
 }
